@@ -383,3 +383,5 @@ def run(prog: Program, chk: Check) -> None:
     chk.call(m7, prog, chk, rule="D6")
     chk.call(d7, prog, chk)
     chk.call(d8, prog, chk)
+    from rules.c03 import site_gate_convention
+    chk.call(site_gate_convention, prog, chk, "D9")
